@@ -264,6 +264,28 @@ class Interp(object):
         return p
     return None
 
+  def load_source(self, name, source):
+    """Load a contract-side stub module written in Python (executed by this interpreter)."""
+    if name in self.modules:
+      return self.modules[name]
+    m = ModuleVal(name, "<stub %s>" % name)
+    self.modules[name] = m
+    m.source = source
+    m.tree = ast.parse(source, filename=name)
+    m.env = Env(parent=None, module=m)
+    m.env.vars["__name__"] = name
+    saved = (self.pc, self.decisions, self.dpos, self.frames)
+    self.pc, self.decisions, self.dpos, self.frames = [], [], 0, []
+    self.loading += 1
+    try:
+      for st in m.tree.body:
+        self.exec_stmt(st, m.env)
+    finally:
+      self.loading -= 1
+      self.pc, self.decisions, self.dpos, self.frames = saved
+    m.loaded = True
+    return m
+
   def get_module(self, name):
     if name in self.modules:
       return self.modules[name]
@@ -1317,6 +1339,11 @@ class Interp(object):
       r = self.equals(a, b)
       return self.logical_not(r) if isinstance(op, ast.NotEq) else r
     # ordering
+    if isinstance(a, Obj) and isinstance(a.cls, ClassVal):
+      dn = {ast.Lt: "__lt__", ast.LtE: "__le__", ast.Gt: "__gt__", ast.GtE: "__ge__"}[type(op)]
+      f, _ = a.cls.lookup(dn)
+      if f is not None:
+        return self.call(BoundMethod(a, f), [b], {})
     if isinstance(a, Term) or isinstance(b, Term):
       return Term(type(op).__name__.lower(), (a, b))
     if type(a).__name__ == "NDList" or type(b).__name__ == "NDList":
@@ -1416,6 +1443,8 @@ class Interp(object):
       if isinstance(item, str):
         if any(isinstance(p, str) and item in p for p in container.pieces):
           return True
+        if not _sstr_may_contain(container.pieces, item):
+          return False
       raise Unsupported("substring test on symbolic string")
     if isinstance(container, dict):
       if is_sym(item):
@@ -1852,6 +1881,50 @@ class Interp(object):
     if isinstance(v, set):
       return set(v)
     return v
+
+
+def _sstr_may_contain(pieces, needle):
+  """Over-approximation: can needle occur in the string, if every str(value) piece may be any text over
+  the alphabet of Python's number/bool/None printing?  (False => the substring test is definitely False.)"""
+  numeric = set("0123456789.-+einfaNoTrueFls")
+  segs = [p if isinstance(p, str) else None for p in pieces]
+  # states: (segment index, offset in concrete segment); simulate all start positions
+  def closure(states):
+    out, todo = set(), list(states)
+    while todo:
+      st = todo.pop()
+      if st in out:
+        continue
+      out.add(st)
+      i, o = st
+      if i < len(segs):
+        if segs[i] is None:
+          todo.append((i + 1, 0))            # wildcard may be empty / end here
+        elif o == len(segs[i]):
+          todo.append((i + 1, 0))
+    return out
+  starts = set()
+  for i, sg in enumerate(segs):
+    if sg is None:
+      starts.add((i, 0))
+    else:
+      for o in range(len(sg) + 1):
+        starts.add((i, o))
+  cur = closure(starts)
+  for ch in needle:
+    nxt = set()
+    for i, o in cur:
+      if i >= len(segs):
+        continue
+      if segs[i] is None:
+        if ch in numeric:
+          nxt.add((i, 0))
+      elif o < len(segs[i]) and segs[i][o] == ch:
+        nxt.add((i, o + 1))
+    cur = closure(nxt)
+    if not cur:
+      return False
+  return True
 
 
 class _Super(object):
